@@ -3,22 +3,62 @@
    | (4 vs) column | (5 r c) from_fn | (6 r c v) empty.   op: (0 r v) insert_row | (1 r vs) insert_row_with | (2 c v) insert_column |
    (3 c vs) insert_column_with | (4 r) remove_row | (5 c) remove_column | (6 S S) retain_mut |
    (7 S S) m = m.retain | (8) m = m.transpose() | (9) transpose_mut | (10 r c v) set | (11 k) map_mut
-   | (12 k) map_mut_with_index | (13 rp cp k v) partition(&rp, &cp), part k filled with v, borrow
-   ended (2 = partition panicked).  (11 2 S S (i ...)): Slice::accepts / Slice2D::accepts at the
-   probes, for the enum-built and the method-built (`not` / `and` / `or`, `slices::new()`) slices.  S: (0) All (1) None (2 i) Single (3 a b) Range (4 S) Not (5 S S) And
+   | (12 k) map_mut_with_index | (13 rp cp k v) partition(&rp, &cp), cell (i, j) of part k (the part's own index) overwritten
+   with v + 10 i + j through one of four access paths of the part, borrow ended (2 = partition panicked).  The harness writes
+   op 10 to the matrix itself through one of eight forms (set / get_reference_mut / try_get_reference_mut / four view wrappers
+   / an owned view) chosen by (r mod 5 + c mod 7 + v mod 11) mod 8 - `set_through` below picks v for a wanted form.  (11 2 S S (i ...)): Slice::accepts / Slice2D::accepts at the
+   probes, for the enum-built and the method-built (`not` / `and` / `or`, `slices::new()`) slices.
+   (11 3 r c S S (i ...)): the SLICE-ALGEBRA tier (wave 2) - accepts of the row / column expression at every index
+   0..len+1 (+ extra probes), printed separately for the enum-built and the method-built expression, Slice2D::accepts over
+   the whole (r+2) x (c+2) grid for both builder orders, and retain_mut / retain in the four builder forms on a from_fn
+   start; exhaustive over ALL expressions of depth <= 2 (an atom, or one not / and / or over atoms) over the atoms
+   {All, None, Single(i), Range(a..b) : 0 <= i, a, b <= len+1} (empty and reversed ranges included) for len 1..3
+   (1..4 thorough), each once as the row and once as the column slice; every pair of atoms as (rows, columns); all pairs of
+   ranges over a length-5 axis under or / and / not-or; random expressions to depth 4.  S: (0) All (1) None (2 i) Single (3 a b) Range (4 S) Not (5 S S) And
    (6 S S) Or.  Result: (2) constructor panicked, or (0 (obs (o obs)...)) with o = 0 returned /
    2 panicked and obs = (size, all get(r,c), row_major_iter, column_major_iter, stored data) after
    EVERY step; the object keeps being used after a caught panic.
    Exhaustive: every sequence of 2 operations (and of 3 over a 16-operation alphabet; over a 37-operation
    alphabet in the thorough tier) over
    the argument alphabet below from every start size <= 3x3; random histories up to length 40 with
-   about one invalid argument in six; every constructor with empty / jagged / wrongly sized /
+   about one invalid argument in six; indexes whose flat offset wraps around (mod 2^64) into the storage; every constructor with empty / jagged / wrongly sized /
    overflowing input."""
 import itertools, re
+from tools import vlib, gen_arith
 from tools.vlib import sx, MAXU
 
 THEOREMS_FILE = "C11"
-TRUSTED = ["harness/src/c11.rs reads the stored data by parsing the derived Debug output of Matrix (`data: [...]`)"]
+TRUSTED = ["harness/src/c11.rs reads the stored data by parsing the derived Debug output of Matrix (`data: [...]`)",
+           "tools/gen_arith.py (mini-Rust -> Gallina translator, notes/GEN.md): the retain closures, the insertion positions, remove_row / "
+           "remove_column / insert_row / insert_column of src/matrices/mod.rs and Slice::accepts / Slice2D::accepts of slices.rs are "
+           "re-translated on every run and proved equal to Model/Matrix.v (C11_generated_arith_matches_model); Vec::retain / Vec::insert "
+           "are `select` / `insert_each` there"]
+
+
+def pre_proof(cov):
+    """Regenerates coq/theories/Gen/Arith.v from <REPO>'s Rust source (under the build lock), so that
+    Proofs/GenMatrixP.v re-proves `generated mutator arithmetic = Model/Matrix.v` about the code as it is NOW."""
+    global _GEN_FAILURE
+    st, _GEN_FAILURE = gen_arith.regenerate_and_prove(["theories/Proofs/GenMatrixP.vo"])
+    cov["translator"] = {k: st[k] for k in ("repo", "targets", "definitions", "not_translated", "changed") if k in st}
+    cov["translator"]["equivalence_proofs"] = "fail" if _GEN_FAILURE else "ok"
+
+
+_GEN_FAILURE = None
+
+
+def extra(tier, seed, cov):
+    """the verdict of the generated-equals-model proofs, taken under the build lock in pre_proof"""
+    if _GEN_FAILURE:
+        return [("generated-equivalence", {"property": "C11", "kind": "proof layer: a definition regenerated from the Rust source "
+                                           "no longer equals the hand-written model function", "repo": vlib.REPO, **_GEN_FAILURE})]
+    # the translator's own tests (tools/test_gen_arith.py): the snippet table on every run (< 1 s),
+    # the differential self-test (generated Gallina evaluated by Coq vs the crate) in the thorough tier
+    from tools import test_gen_arith
+    res = test_gen_arith.extra_violations("C11", tier)
+    cov.setdefault("translator", {})["self_test"] = "fail" if res else ("table+differential ok" if tier == "thorough" else "table ok")
+    return res
+
 ASSUMPTIONS = [
     "C11_refines / C11_final_state assume that the element count fits a usize before every operation (`all_fit`); "
     "C11_all_fit_iff_allocated shows this is exactly `the implementation's own Vec holds at most usize::MAX elements before "
@@ -28,6 +68,14 @@ ASSUMPTIONS = [
     "row_major_iter / column_major_iter are compared with the model's get(r, c) listing in that order (the iterators' own "
     "counters are C09's subject)",
     "histories are run with the element types i64 and a heap allocated non-Copy newtype; the theorems hold for every type",
+    "the builder methods Slice::not / and / or and the Slice2D builder are transcribed as functions (Model/Slices.v; today "
+    "they box their arguments into the variant of the same name); their results are compared with the model in their own "
+    "components of the (11 3 ...) cases, for every expression of depth <= 2 over every atom of axes of length 1..3 and random "
+    "expressions to depth 4; the algebra laws (C11_slice_builder_laws, C11_slice_algebra_laws, ...) are about that transcription",
+    "the history's own `set` goes through one of eight write forms (set, get_reference_mut, try_get_reference_mut, "
+    "MatrixView::from(&mut m), range_mut(full), boxed &mut, owned view) chosen by the arguments, the other seven write to copies "
+    "and must agree; the model has ONE step for them (OSet), justified for the first two wrappers by C11_view_write_is_set and "
+    "in general by C12's contract theorems",
 ]
 
 ALL, NONE = [0], [1]
@@ -53,6 +101,76 @@ def accepts(s, i):
     if t == 4: return not accepts(s[1], i)
     if t == 5: return accepts(s[1], i) and accepts(s[2], i)
     return accepts(s[1], i) or accepts(s[2], i)
+
+
+def atoms(n):
+    """every atom over a length-n axis: indexes up to one past the end + 1, empty and reversed ranges included"""
+    return [ALL, NONE] + [single(i) for i in range(n + 2)] + [rng_(a, b) for a in range(n + 2) for b in range(n + 2)]
+
+
+def depth2(n):
+    """ALL slice expressions of depth <= 2 over atoms(n)"""
+    a = atoms(n)
+    out = list(a) + [not_(x) for x in a]
+    for x in a:
+        for y in a:
+            out.append(and_(x, y))
+            out.append(or_(x, y))
+    return out
+
+
+def random_expr(rng, n, depth, wild=False):
+    """a random slice expression over a length-n axis"""
+    if depth <= 1 or rng.random() < 0.25:
+        t = rng.randrange(8)
+        hi = n + 2
+        pick = lambda: rng.choice([MAXU, MAXU - 1, 2 ** 63]) if wild and rng.random() < 0.1 else rng.randrange(hi)
+        if t == 0: return ALL
+        if t == 1: return NONE
+        if t in (2, 3): return single(pick())
+        return rng_(pick(), pick())
+    t = rng.randrange(5)
+    if t == 0:
+        return not_(random_expr(rng, n, depth - 1, wild))
+    if t in (1, 2):
+        return and_(random_expr(rng, n, depth - 1, wild), random_expr(rng, n, depth - 1, wild))
+    return or_(random_expr(rng, n, depth - 1, wild), random_expr(rng, n, depth - 1, wild))
+
+
+def algebra_cases(tier, rng):
+    quick = tier == "quick"
+    lens = (1, 2, 3) if quick else (1, 2, 3, 4)
+    table = {n: depth2(n) for n in (1, 2, 3, 4)}
+    k = 0
+    for n in lens:
+        for e in table[n]:
+            k += 1
+            other = 1 + k % 3
+            partner = table[other][(k * 7919) % len(table[other])]
+            yield sx([11, 3, n, other, e, partner, []])
+            k += 1
+            other = 1 + k % 3
+            partner = table[other][(k * 104729) % len(table[other])]
+            yield sx([11, 3, other, n, partner, e, []])
+    # every PAIR of atoms as (row slice, column slice) of one Slice2D, on a len x len start
+    for n in (1, 2, 3):
+        for x in atoms(n):
+            for y in atoms(n):
+                yield sx([11, 3, n, n, x, y, []])
+    # the pairs of ranges of an `or` / `and` over a longer axis (nested, overlapping, touching, disjoint, empty)
+    for n in (5,):
+        rs = [rng_(a, b) for a in range(n + 1) for b in range(n + 1)]
+        for x in rs:
+            for y in rs:
+                k += 1
+                if k % 2:
+                    yield sx([11, 3, n, 2, or_(x, y), and_(x, y), []])
+                else:
+                    yield sx([11, 3, 2, n, not_(or_(x, y)), or_(y, x), []])
+    big = [MAXU, MAXU - 1, 2 ** 63, 2 ** 32]
+    for _ in range(2500 if quick else 10000):
+        r, c = rng.randrange(1, 6), rng.randrange(1, 6)
+        yield sx([11, 3, r, c, random_expr(rng, r, 4, True), random_expr(rng, c, 4, True), big])
 
 
 def start_case(r, c, form):
@@ -82,6 +200,16 @@ class Fresh:
     def many(self, k): return [self.one() for _ in range(k)]
 
 
+def set_through(form, r, c, f):
+    """a `set` whose write to the matrix under test goes through write form `form` of harness/src/c11.rs (0 set,
+    1 get_reference_mut, 2 try_get_reference_mut, 3 MatrixView::from(&mut m).set, 4 range_mut(full).set,
+    5 view get_reference_mut, 6 boxed &mut under a view, 7 owned view unwrapped again)"""
+    v = f.one()
+    while (r % 5 + c % 7 + v % 11) % 8 != form:
+        v = f.one()
+    return [10, r, c, v]
+
+
 def alphabet(full):
     f = Fresh()
     ops = []
@@ -109,11 +237,19 @@ def alphabet(full):
         for s in (NONE, single(1), rng_(1, 3), not_(single(0))):
             ops.append([7, s, ALL])
         ops += [[7, ALL, NONE], [7, rng_(0, 2), not_(single(1))]]
+        # an `or` of nested ranges (seed C11-v2), in place and allocating, inside the exhaustive 2-op tier
+        ops += [[6, or_(rng_(0, 3), rng_(1, 2)), ALL], [7, not_(and_(rng_(0, 1), ALL)), or_(rng_(1, 2), rng_(0, 3))]]
     else:
         ops += [[7, single(1), rng_(1, 3)], [7, NONE, ALL]]
     ops += [[8], [9]]
     for (r, c) in ([(0, 0), (1, 2), (2, 1), (3, 0), (0, 3)] if full else [(1, 1), (0, 3)]):
         ops.append([10, r, c, f.one()])
+    if full:
+        # every write form on the object itself (valid cell (0, 0) / (1, 1) / refused (0, 3))
+        for form in range(8):
+            ops.append(set_through(form, (form % 2), (form % 2), f))
+        for form in (3, 4, 6, 7):
+            ops.append(set_through(form, 0, 3, f))
     ops += [[11, 5], [12, 3]]
     ops += [[13, [1], [1], 3, f.one()], [13, [], [2], 0, f.one()], [13, [2, 1], [], 0, f.one()], [13, [0], [4], 1, f.one()]]
     if full:
@@ -173,6 +309,7 @@ def random_history_parts(rng, maxlen):
                 if t == 5: return and_(rng_(0, max(1, b)), not_(single(a)))
                 if t == 6: return or_(single(a), single(b))
                 if t == 7: return not_(rng_(a, b))
+                if rng.random() < 0.5: return random_expr(rng, n, 3, bad)
                 return or_(and_(rng_(a, n), not_(single(b))), single(0))
             sr, sc = rs(r), rs(c)
             ops.append([k, sr, sc])
@@ -245,7 +382,8 @@ def gen(tier, rng):
     # every sequence of 3 operations over a tiny alphabet (valid and invalid arguments of every kind)
     tiny = [[0, 1, 801], [1, 1, [811, 812, 813]], [2, 0, 821], [3, 2, [831, 832, 833, 834]], [4, 0], [4, 3], [5, 1],
             [6, single(1), ALL], [6, ALL, not_(single(0))], [7, NONE, ALL], [8], [9], [10, 1, 1, 841], [10, 0, 3, 842],
-            [11, 5], [12, 3], [13, [1], [1], 3, 851], [13, [2, 1], [], 0, 852]]
+            [11, 5], [12, 3], [13, [1], [1], 3, 851], [13, [2, 1], [], 0, 852],
+            set_through(3, 0, 1, Fresh()), set_through(7, 1, 0, Fresh())]
     if quick:
         for r in range(1, 4):
             for c in range(1, 4):
@@ -272,12 +410,27 @@ def gen(tier, rng):
         for sc in SLICES + deep:
             yield sx([11, 2, sr, sc, probes])
     yield sx([11, 2, ALL, NONE, []])
+    yield from algebra_cases(tier, rng)
     # indexes at the top of the usize range never alias a valid one
     for big in (MAXU, MAXU - 1, 2 ** 63, 2 ** 32, 2 ** 32 + 1):
         yield sx([11, 1, start_case(2, 3, 0), [[0, big, 1], [1, big, [1, 2, 3]], [2, big, 1], [3, big, [1, 2]],
                                               [4, big], [5, big], [10, big, 0, 1], [10, 0, big, 1],
                                               [10, big, big, 1], [6, single(big), ALL], [6, ALL, rng_(big, big)],
                                               [6, rng_(1, big), rng_(0, big)]]])
+    # indexes whose flat offset WRAPS AROUND (mod 2^64) to an offset inside the storage: row indexes i with
+    # (i * columns) mod 2^64 < rows * columns, column indexes close to 2^64 (column + row * columns wraps for row >= 1)
+    for r in range(1, 5):
+        for c in range(1, 5):
+            rows_alias = sorted({(j * 2 ** 64 + t) // c for j in range(1, c + 1) for t in range(r * c + c)
+                                 if (j * 2 ** 64 + t) % c == 0 and (j * 2 ** 64 + t) // c <= MAXU})
+            cols_alias = [2 ** 64 - t for t in range(1, r * c + c + 1)]
+            ops = []
+            for i in rows_alias:
+                ops += [[4, i], [10, i, 0, 1], [0, i, 2], [1, i, list(range(3, 3 + c))]]
+            for j in cols_alias:
+                ops += [[5, j], [10, 0, j, 4], [10, r - 1, j, 4], [2, j, 5], [3, j, list(range(6, 6 + r))]]
+            for k in range(0, len(ops), 6):
+                yield sx([11, 1, start_case(r, c, 1), ops[k:k + 6]])
     for _ in range(3000 if quick else 12000):
         yield random_history(rng, 40)
     for _ in range(300 if quick else 800):
@@ -290,7 +443,7 @@ _STEP = re.compile(r"\((0|2) \(\(\d+ \d+\)")
 def nontrivial(case, model_out):
     """a successfully constructed matrix followed by at least two operations of which at least one
     returned normally (the panicking ones are then followed by continued use of the object)"""
-    if case.startswith("(11 2"):
+    if case.startswith("(11 2") or case.startswith("(11 3"):
         return "1" in model_out and "0" in model_out
     if not model_out.startswith("(0 ((("):
         return False
@@ -304,13 +457,23 @@ def distribution(lines):
     from tools.vlib import parse_sx
     counts = dict.fromkeys(names, 0)
     lens = {}
+    kinds = {"(11 1": 0, "(11 2": 0, "(11 3": 0}
+    for ln in lines:
+        kinds[ln[:5]] = kinds.get(ln[:5], 0) + 1
+    write_forms = dict.fromkeys(range(8), 0)
     for ln in lines[::max(1, len(lines) // 20000)]:
         t = parse_sx(ln)
         if t[1] != 1:
             continue
+        for o in t[3]:
+            if o[0] == 10:
+                write_forms[(o[1] % 5 + o[2] % 7 + o[3] % 11) % 8] += 1
         ops = t[3]
         b = "len<=3" if len(ops) <= 3 else ("len<=40" if len(ops) <= 40 else "len>40")
         lens[b] = lens.get(b, 0) + 1
         for o in ops:
             counts[names[o[0]]] += 1
-    return {"ops_sampled": counts, "history_length_sampled": lens}
+    return {"ops_sampled": counts, "history_length_sampled": lens,
+            "cases_by_kind": {"histories (11 1)": kinds["(11 1"], "accepts probes (11 2)": kinds["(11 2"],
+                              "slice algebra (11 3)": kinds["(11 3"]},
+            "set_write_form_sampled": write_forms}
